@@ -62,6 +62,7 @@ fn stats_json(s: &Stats) -> J {
         .set("atomic_yields", J::u(s.atomic_yields))
         .set("preempt_atomic", J::u(s.preempt_atomic))
         .set("ops_with_outside_threads", J::u(s.ops_with_outside_threads))
+        .set("threads_adopted", J::u(s.threads_adopted))
 }
 
 fn fnv_u32s(d: &[u32]) -> u64 {
@@ -375,7 +376,7 @@ pub fn cmd_trace(args: &Args) -> i32 {
             })
             .collect();
         println!(
-            "run={} n={} dec={:016x}/{} steps={} switches={} outside_threads={} ops=[{}] out=[{}] viol={}",
+            "run={} n={} dec={:016x}/{} steps={} switches={} outside_threads={} adopted_threads={} ops=[{}] out=[{}] viol={}",
             idx,
             plan.cases[0].n(),
             fnv_u32s(&r.decisions),
@@ -383,6 +384,7 @@ pub fn cmd_trace(args: &Args) -> i32 {
             r.stats.scheduler_steps,
             r.stats.context_switches,
             r.stats.ops_with_outside_threads,
+            r.stats.threads_adopted,
             oh.join(","),
             oc.join(","),
             v.is_some()
